@@ -489,6 +489,18 @@ func c16GuardedBy(r *Run, m *ServerModel) {
 					okAt = true
 				}
 			}
+			// ... or the field is of a typed atomic (atomic.Int32, atomic.Bool, ...): every
+			// access the type allows is atomic (copying the value is what go vet's copylocks
+			// forbids; a method call on it is the only use that type-checks as a read or write)
+			if ft := info.TypeOf(fa.Sel); ft != nil {
+				if nt, isNamed := ft.(*types.Named); isNamed && nt.Obj().Pkg() != nil && nt.Obj().Pkg().Path() == "sync/atomic" {
+					if sel, isSel := r.L.parent(fa.Sel).(*ast.SelectorExpr); isSel && sel.X == ast.Expr(fa.Sel) {
+						if _, isCall := r.L.parent(sel).(*ast.CallExpr); isCall {
+							okAt = true
+						}
+					}
+				}
+			}
 			set(okAt, map[bool]string{true: "accessed through sync/atomic", false: "field " + fa.Key + " is documented as atomic but is accessed directly at " + r.L.relPos(fa.Sel.Pos()) + ": a data race with its atomic users"}[okAt])
 			continue
 		}
